@@ -1142,6 +1142,13 @@ SRC_ITEMS = [
          fn=lambda repo: __import__("harness.lib.pysrc", fromlist=["x"]).translate_segment(
              repo, "holopy/scattering/theory/mie.py", "Mie._scat_coeffs", "mie_handoff_src", "x_arr", "m_arr", ["x_arr", "m_arr"],
              inputs=["medium_wavevec", "medium_index"], calls={"ensure_array": ("", 1)}, opaque_exprs={"s.r": "r", "s.n": "n"})),
+    dict(file="holopy/scattering/imageformation.py", qualname="ImageFormation._transform_to_desired_coordinates (cartesian)",
+         name="coord_handoff_src",
+         fn=lambda repo: __import__("harness.lib.pysrc", fromlist=["x"]).translate_assigned_list(
+             repo, "holopy/scattering/imageformation.py", "ImageFormation._transform_to_desired_coordinates", "coord_handoff_src",
+             "original_coordinate_values", 3,
+             {"f.x.values": "x", "f.y.values": "y", "f.z.values": "z", "origin[0]": "ox", "origin[1]": "oy", "origin[2]": "oz"},
+             inputs=["wavevec"])),
 ]
 
 
@@ -1186,7 +1193,7 @@ def run(ctx):
         "harness-side recording subclasses of the theories and wrappers around scatcoeffs / scatcoeffs_multi / amncalc / ampld / "
         "MieLensCalculator (module attributes replaced at run time; /repo is not edited)"]
     ctx.trusted.append("source translator harness/lib/pysrc.py (python floats read as reals; see its docstring) for the source tie")
-    ctx.clauses_proved.append("source tie: get_wavevec_from and the medium_wavevec expression of calc_cross_sections, translated from the current source text on every run, are proved equal to the model wave vector; inverse scaling and index substitution restated for the translated source; the size parameter and relative index Mie._scat_coeffs hands to the solver (x = k r, m = n / n_m), translated likewise, are proved invariant under scaling of all lengths and under (n, n_m, lambda) -> (n/n_m, 1, lambda/n_m)")
+    ctx.clauses_proved.append("source tie: get_wavevec_from and the medium_wavevec expression of calc_cross_sections, translated from the current source text on every run, are proved equal to the model wave vector; inverse scaling and index substitution restated for the translated source; the size parameter and relative index Mie._scat_coeffs hands to the solver (x = k r, m = n / n_m), translated likewise, are proved invariant under scaling of all lengths and under (n, n_m, lambda) -> (n/n_m, 1, lambda/n_m); the Cartesian hand-off of ImageFormation._transform_to_desired_coordinates (k (x - x0), k (y - y0), k (z0 - z)) is proved equal to the model's handoff1 and invariant under scaling and under a common shift of detector and particle")
     guarded(ctx, "prove", ctx.prove)
     guarded(ctx, "source-tie", stage_srctie, ctx)
     boot.boot()
